@@ -228,6 +228,24 @@ func driveC18(c *driverCtx) error {
 				"std_ok": err == nil, "std": timeNode(std)})
 		}
 	}
+	// ... and a long run over (nearly) every minute offset there is, again out of the one reused backing array: caches
+	// keyed by anything that points into the caller's buffer fall apart when they have to grow
+	{
+		perm := c.rng.Perm(28*60 + 1)
+		nrun := c.pick(1200, 2*len(perm))
+		for i := 0; i < nrun; i++ {
+			off := (perm[i%len(perm)] - 14*60) * 60
+			if off == 0 {
+				off = 60
+			}
+			s := fmt.Sprintf("2021-%02d-%02dT%02d:%02d:%02d%s", 1+i%12, 1+i%28, i%24, i%60, (i*7)%60, zoneString(off))
+			std, err := time.Parse(time.RFC3339, s)
+			t, out := parseVia("reused", s)
+			c.rec.NewCase()
+			c.rec.Emit("C18|reused-sequence|all-offsets", map[string]any{"op": "time_parse", "s": byteList([]byte(s)), "text": s, "out": out, "t": timeNode(t),
+				"std_ok": err == nil, "std": timeNode(std)})
+		}
+	}
 	_ = reflect.TypeOf
 	return nil
 }
